@@ -2,6 +2,10 @@ package props
 
 import (
 	"fmt"
+	transfertypes "github.com/cosmos/ibc-go/v7/modules/apps/transfer/types"
+	clienttypes "github.com/cosmos/ibc-go/v7/modules/core/02-client/types"
+	channeltypes "github.com/cosmos/ibc-go/v7/modules/core/04-channel/types"
+	haqqapp "github.com/haqq-network/haqq/app"
 	"math/big"
 	"math/rand"
 	"strings"
@@ -57,6 +61,12 @@ func c10Gen(r *rand.Rand, tier string) []Case {
 	amt := func() string {
 		return pick(r, []string{"all", "half", "half", "over", fmt.Sprint(1 + r.Intn(400)), fmt.Sprint(1 + r.Intn(400)), "0"})
 	}
+	// fixed case: the repository's balance-manipulating token — tokens sent to the module (the hook mints coins for what
+	// arrived), then those coins come back over IBC and the middleware tries to convert them
+	out = append(out, Case{"preset 0 0 500 0 0 0 0 0", "preset 1 1 0 0 0 500 0 0",
+		"mal # kind=direct op=tr u=1 x=200", "mal # kind=direct op=ibcrecv u=1 x=0", "mal # kind=direct op=cc u=1 x=10",
+		"mal # kind=delayed op=tr u=1 x=200", "mal # kind=delayed op=ibcrecv u=1 x=0",
+		"cc 0 1 1 half", "cc 0 1 1 all # via=ibc", "ce 1 1 1 half", "cc 1 1 1 all # via=ibc"})
 	for i := 0; i < n; i++ {
 		c := Case{
 			fmt.Sprintf("preset 0 0 %d %d %d 0 0 0", 200+r.Intn(800), r.Intn(500), r.Intn(3)),
@@ -68,7 +78,11 @@ func c10Gen(r *rand.Rand, tier string) []Case {
 			u, v := 1+r.Intn(3), 1+r.Intn(3)
 			switch x := r.Intn(24); {
 			case x < 5:
-				c = append(c, fmt.Sprintf("cc %d %d %d %s", p, u, v, amt()))
+				if r.Intn(4) == 0 {
+					c = append(c, fmt.Sprintf("cc %d %d %d all # via=ibc", p, u, u))
+				} else {
+					c = append(c, fmt.Sprintf("cc %d %d %d %s", p, u, v, amt()))
+				}
 			case x < 9:
 				c = append(c, fmt.Sprintf("ce %d %d %d %s", p, u, v, amt()))
 			case x < 13:
@@ -88,7 +102,7 @@ func c10Gen(r *rand.Rand, tier string) []Case {
 				c = append(c, fmt.Sprintf("send 0 %d %d %s", u, v, amt()))
 			default:
 				kind := pick(r, []string{"delayed", "direct", "forger"})
-				op := pick(r, []string{"ce", "tr", "cc"})
+				op := pick(r, []string{"ce", "tr", "cc", "ibcrecv"})
 				if kind == "forger" {
 					op = "forge"
 				}
@@ -287,7 +301,21 @@ func c10Exec(c Case) (outs []string, fails []Failure, tags []string) {
 					s, r := vmIdx(f[2]), vmIdx(f[3])
 					x := amount(f[4], app.BankKeeper.GetBalance(env.ctx, accOf(s), p.denom).Amount.BigInt())
 					f[4] = x.String()
-					ok = route(cctx, erc20types.NewMsgConvertCoin(sdk.Coin{Denom: p.denom, Amount: sdkmath.NewIntFromBigInt(x)}, ethOf(r), accOf(s))) == nil
+					if kv["via"] == "ibc" {
+						// the same conversion, started by the IBC middleware for coins that came back over a channel: the whole
+						// balance of the receiver, to the receiver's own hex address
+						x = app.BankKeeper.GetBalance(env.ctx, accOf(s), p.denom).Amount.BigInt()
+						f[3], f[4] = f[2], x.String()
+						ok = x.Sign() > 0 && c10IBCRecv(cctx, app, p.denom, accOf(s), x)
+						// (for a disabled pair the middleware acknowledges the receive and converts nothing: not a conversion)
+						ok = ok && app.BankKeeper.GetBalance(cctx, accOf(s), p.denom).Amount.BigInt().Cmp(x) < 0
+						if x.Sign() == 0 {
+							ok = route(cctx, erc20types.NewMsgConvertCoin(sdk.Coin{Denom: p.denom, Amount: sdkmath.NewIntFromBigInt(x)}, ethOf(s), accOf(s))) == nil
+						}
+						tags = append(tags, "convert-via-ibc-receive")
+					} else {
+						ok = route(cctx, erc20types.NewMsgConvertCoin(sdk.Coin{Denom: p.denom, Amount: sdkmath.NewIntFromBigInt(x)}, ethOf(r), accOf(s))) == nil
+					}
 				case "ce":
 					s, r := vmIdx(f[2]), vmIdx(f[3])
 					x := amount(f[4], bal(p, ethOf(s)))
@@ -394,6 +422,11 @@ func c10Exec(c Case) (outs []string, fails []Failure, tags []string) {
 				case "forge":
 					in := append([]byte{0xde, 0xad, 0xbe, 0xef}, common.LeftPadBytes(x.Bytes(), 32)...)
 					ok, _ = ethTx(cctx, u, &p.contract, in)
+				case "ibcrecv":
+					// the holder's coins of this pair come back over IBC and the middleware converts the whole balance
+					if b := app.BankKeeper.GetBalance(env.ctx, accOf(u), p.denom).Amount.BigInt(); b.Sign() > 0 {
+						ok = c10IBCRecv(cctx, app, p.denom, accOf(u), b)
+					}
 				}
 				if ok {
 					write()
@@ -413,6 +446,21 @@ func c10Exec(c Case) (outs []string, fails []Failure, tags []string) {
 		outs = append(outs, out)
 	}
 	return
+}
+
+// c10IBCRecv runs the ERC20 middleware's OnRecvPacket for coins of `denom` that an ICS-20 transfer has just credited to
+// `to` (coming back to their source chain), the way ibc-go core does: on a branch of the state that is written only
+// if the acknowledgement is a success.
+func c10IBCRecv(ctx sdk.Context, app *haqqapp.Haqq, denom string, to sdk.AccAddress, amt *big.Int) bool {
+	data := transfertypes.NewFungibleTokenPacketData("transfer/channel-0/"+denom, amt.String(), "cosmos1qql8ag4cluz6r4dz28p3w00dnc9w8ueulg2gmc", to.String(), "")
+	packet := channeltypes.NewPacket(data.GetBytes(), 1, "transfer", "channel-0", "transfer", "channel-0", clienttypes.NewHeight(0, 1_000_000), 0)
+	cctx, write := ctx.CacheContext()
+	ack := app.Erc20Keeper.OnRecvPacket(cctx, packet, channeltypes.NewResultAcknowledgement([]byte{1}))
+	if ack.Success() {
+		write()
+		return true
+	}
+	return false
 }
 
 // c10DeployForger deploys a hand-assembled token that answers name/symbol/decimals/balanceOf and, on any other call,
